@@ -224,6 +224,10 @@ def print_prog(prog, cfg, extra_settings=""):
         for l in rc["body"]:
             out.append("  " + print_line(l))
         out.append("")
+    if cfg.get("aliasMask"):
+        for i in range(len(prog["recipes"])):
+            out.append("alias al%d := r%d" % (i, i))
+        out.append("")
     return "\n".join(out)
 
 
@@ -239,8 +243,10 @@ def cmdline(cfg, invs):
         argv.append("--yes")
     if cfg.get("noDeps"):
         argv.append("--no-deps")
-    for ri, args in invs:
-        argv.append("r%d" % ri)
+    mask = cfg.get("aliasMask", 0)
+    for k, (ri, args) in enumerate(invs):
+        # bit k of the mask: name the recipe through its alias `al<i>` (same recipe, same run-once key)
+        argv.append(("al%d" if (mask >> (k % 8)) & 1 else "r%d") % ri)
         argv += args
     return argv
 
